@@ -25,7 +25,7 @@ theorem DelOut.of_killed {s s' : St} {K : List Nat} {o : Nat} (hk : Killed s K s
     · exact h1 htk
   simp [hta, this]
 
-theorem single_closed {ex : Option Var} {s : St} {o : Nat} (hi : Inv0 ex s) (ha : s.alive o = true)
+theorem single_closed {ex : Var → Prop} {s : St} {o : Nat} (hi : Inv00 ex s) (ha : s.alive o = true)
     (hk : s.kind o = .mem ∨ s.kind o = .ker ∨ s.kind o = .str) : Closed0 s [o] := by
   have hkids : s.kids o = [] := hi.kids_nil (by rcases hk with h | h | h <;> rw [h] <;> exact ⟨by decide, by decide⟩)
   have hch : ∀ k, s.chGet k o = [] := fun k => hi.ch_nil (by rcases hk with h | h | h <;> rw [h] <;> decide) k
@@ -49,7 +49,7 @@ theorem single_closed {ex : Option Var} {s : St} {o : Nat} (hi : Inv0 ex s) (ha 
     have := (hi.inner_ok p i hpa hin).2.2.1
     rcases hk with h | h | h <;> rw [h] at this <;> cases this
 
-theorem single_emptied {ex : Option Var} {s s' : St} {o : Nat} {K : List Nat} (hi : Inv0 ex s)
+theorem single_emptied {ex : Var → Prop} {s s' : St} {o : Nat} {K : List Nat} (hi : Inv00 ex s)
     (hk : s.kind o = .mem ∨ s.kind o = .ker ∨ s.kind o = .str) (hkil : Killed s K s') : Emptied s' [o] := by
   intro b hb
   have : b = o := by simpa using hb
@@ -67,17 +67,13 @@ theorem single_emptied {ex : Option Var} {s s' : St} {o : Nat} {K : List Nat} (h
     have := hkil.chS k b x hx
     rw [hch k] at this; simp at this
 
-/-- `delete` of a kernel or stream -/
-theorem InvX.del_child {ex : Option Var} {s : St} {o : Nat} {k : Kind} (hi : InvX ex s)
-    (ha : s.alive o = true) (hko : s.kind o = k) (hk : k = .ker ∨ k = .str) :
-    InvX ex (deleteChild k s o) ∧ Killed s [o] (deleteChild k s o) := by
+theorem deleteChild_core {ex : Var → Prop} {s : St} {o d : Nat} {k : Kind} (hi : Inv00 ex s)
+    (ha : s.alive o = true) (hko : s.kind o = k) (hk : k = .ker ∨ k = .str)
+    (hp : s.par o = some d) (hda : s.alive d = true) (hdo : d ≠ o) :
+    Killed s [o] (deleteChild k s o) ∧ Purged (deleteChild k s o) [o] ∧ Emptied (deleteChild k s o) [o] := by
   have hk' : s.kind o = .mem ∨ s.kind o = .ker ∨ s.kind o = .str := by
     rcases hk with h | h <;> rw [hko, h] <;> simp
-  have hkd : s.kind o ≠ .dev := by rcases hk with h | h <;> rw [hko, h] <;> decide
   have hkm : s.kind o ≠ .mem := by rcases hk with h | h <;> rw [hko, h] <;> decide
-  have hkb : s.kind o ≠ .buf := by rcases hk with h | h <;> rw [hko, h] <;> decide
-  obtain ⟨d, hp, hda, hdk, hdch⟩ := hi.ch_par o ha hkd hkm
-  have hdo : d ≠ o := by intro h; rw [h] at hdk; exact hkd hdk
   have he : deleteChild k s o
       = (killForm s o).chSet k d (Ring.remove ((killForm s o).chGet k d) o) := by
     unfold deleteChild
@@ -92,34 +88,48 @@ theorem InvX.del_child {ex : Option Var} {s : St} {o : Nat} {k : Kind} (hi : Inv
     have h2 : PreEdit (killForm s o) ((killForm s o).chSet k d (Ring.remove ((killForm s o).chGet k d) o)) [] :=
       preEdit_chSet_remove k d o (by simpa using hi.ch_nodup k d) (Or.inr (by simp [killForm]))
     simpa using h1.trans h2.killed
-  refine ⟨?_, hkil⟩
-  have hpur : Purged (deleteChild k s o) [o] := by
-    constructor
-    · intro b x hx hxo
-      have : x = o := by simpa using hxo
-      subst this
-      exact hkm (hi.kids_ok b x (hkil.kidsS b x hx)).2.1
-    · intro k' d' x hx hxo
-      have : x = o := by simpa using hxo
-      subst this
-      have hx0 := hkil.chS k' d' x hx
-      have hxk := hi.ch_ok k' d' x hx0
-      have e1 := hxk.2.1
-      rw [hp] at e1
-      cases e1
-      have e2 : slot k' = slot k := by rw [← hxk.2.2.1, hko]
-      rw [he, chGet_chSet] at hx
-      simp only [e2, and_self, if_true] at hx
-      exact Ring.not_mem_remove (by simpa using hi.ch_nodup k d) x hx
-  have hcl : Closed s [o] := by
-    refine ⟨single_closed hi.toInv0 ha hk', ?_⟩
-    intro b' _ hb'k _ hne
-    obtain ⟨m, hm⟩ := List.exists_mem_of_ne_nil _ hne
-    refine ⟨m, hm, ?_⟩
-    intro hmo
-    have : m = o := by simpa using hmo
+  refine ⟨hkil, ?_, single_emptied hi hk' hkil⟩
+  constructor
+  · intro b x hx hxo
+    have : x = o := by simpa using hxo
     subst this
-    exact hkm (hi.kids_ok b' m hm).2.1
-  exact hi.killed hkil hcl hpur (single_emptied hi.toInv0 hk' hkil)
+    exact hkm (hi.kids_ok b x (hkil.kidsS b x hx)).2.1
+  · intro k' d' x hx hxo
+    have : x = o := by simpa using hxo
+    subst this
+    have hx0 := hkil.chS k' d' x hx
+    have hxk := hi.ch_ok k' d' x hx0
+    have e1 := hxk.2.1
+    rw [hp] at e1
+    cases e1
+    have e2 : slot k' = slot k := by rw [← hxk.2.2.1, hko]
+    rw [he, chGet_chSet] at hx
+    simp only [e2, and_self, if_true] at hx
+    exact Ring.not_mem_remove (by simpa using hi.ch_nodup k d) x hx
+
+theorem child_closed {ex : Var → Prop} {s : St} {o : Nat} (hi : Inv00 ex s) (ha : s.alive o = true)
+    (hk : s.kind o = .ker ∨ s.kind o = .str) : Closed s [o] := by
+  have hk' : s.kind o = .mem ∨ s.kind o = .ker ∨ s.kind o = .str := Or.inr hk
+  have hkm : s.kind o ≠ .mem := by rcases hk with h | h <;> rw [h] <;> decide
+  refine ⟨single_closed hi ha hk', ?_⟩
+  intro b' _ hb'k _ hne
+  obtain ⟨m, hm⟩ := List.exists_mem_of_ne_nil _ hne
+  refine ⟨m, hm, ?_⟩
+  intro hmo
+  have : m = o := by simpa using hmo
+  subst this
+  exact hkm (hi.kids_ok b' m hm).2.1
+
+/-- `delete` of a kernel or stream -/
+theorem InvX.del_child {ex : Var → Prop} {s : St} {o : Nat} {k : Kind} (hi : InvX ex s)
+    (ha : s.alive o = true) (hko : s.kind o = k) (hk : k = .ker ∨ k = .str) :
+    InvX ex (deleteChild k s o) ∧ Killed s [o] (deleteChild k s o) := by
+  have hkd : s.kind o ≠ .dev := by rcases hk with h | h <;> rw [hko, h] <;> decide
+  have hkm : s.kind o ≠ .mem := by rcases hk with h | h <;> rw [hko, h] <;> decide
+  obtain ⟨d, hp, hda, hdk, _⟩ := hi.ch_par o ha hkd hkm
+  have hdo : d ≠ o := by intro h; rw [h] at hdk; exact hkd hdk
+  obtain ⟨h1, h2, h3⟩ := deleteChild_core hi.toInv00 ha hko hk hp hda hdo
+  have hk2 : s.kind o = .ker ∨ s.kind o = .str := by rcases hk with h | h <;> rw [hko, h] <;> simp
+  exact ⟨hi.killed h1 (child_closed hi.toInv00 ha hk2) h2 h3, h1⟩
 
 end Occa.Gc
